@@ -33,5 +33,42 @@ prop(
                  "numeric condition operands are int64 (true of every Go value of the type)"],
 )
 
+CONTENT_TB = [KERNEL, AXIOMS, TGEN + " (prefilter leaf evaluators; Unicode IsSpace/ToLower tables regenerated from the Go toolchain by /verif/gen/unitables)", TDIFF, HOOKS,
+              "modelled, not verified: encoding/json Marshal (rows enter the model as the JSON tree encoding/json's own token stream reads back from the marshaled bytes); "
+              "gjson's parser (cross-checked on every row: the production walker's emissions must equal the Lean walk of the encoding/json tree); Go regexp (oracle table per case); "
+              "bits-and-blooms (assumed: every inserted string tests positive, also after WriteTo/ReadFrom — hypothesis SoundBuild); snappy/zstd round trip; "
+              "the compiled single-walk matcher's early exit / lazy regex phase is not modelled separately: its verdicts are compared with the documented semantics on every (query,row) case; "
+              "the query pipeline's goroutines and chunked region reader (covered by the end-to-end comparison and by C19-C24)"]
+CONTENT_ASSUME = ["rows are JSON objects whose strings are valid UTF-8 (what json.Marshal emits for Go strings; invalid UTF-8 via json.RawMessage is outside the model)",
+                  "bloom filters are sound for inserted entries (SoundBuild); they may have any false-positive behaviour",
+                  "regex semantics for CONDITION nodes without a condition: dropped from their parent (what the engine's compile step does)",
+                  "a MetaStore yields every referenced file with at least the blocks that satisfy the prefilter (true of both shipped stores)"]
+
+prop(
+    "C01",
+    lean_modules=["BloomVerif.Lemmas.Guard", "BloomVerif.Lemmas.Tokenizer", "BloomVerif.Lemmas.Content", "BloomVerif.Props.C04", "BloomVerif.Props.C01"],
+    technique="Lean 4 proof (walker prefix-closure lemma, regex-guard soundness, monotone filter domination, C04 lift; for every JSON tree, tokenizer, expression tree and file/block split) + regenerated Unicode tables + three-granularity differential correspondence",
+    design_ref="DESIGN.md section 4 C01",
+    text="Machine-checked theorem C01_no_false_negatives: for index-covered files (established for flush and merge output by C18's theorems), every stored row that matches the bloom and regex trees under the documented "
+         "semantics and whose own partition ID / indexed values satisfy the prefilter is in the query result - for every JSON tree, every tokenizer function, every AND/OR tree with nil/empty/unknown nodes, "
+         "every split into files and blocks, every sound filter. Supporting theorems: every delimiter-bounded prefix of an emitted path is emitted (so a true regex condition implies its Field guard), "
+         "direct (path,token) match implies the joined key, the fast tokenizer equals Fields∘ToLower on the regenerated Unicode tables (kernel-evaluated over the whole table). "
+         "Tied to the code per row (walker, entries, tokenizer), per (query,row) (compiled matcher) and end to end over random ingest/flush/merge/reopen/external-writer histories.",
+    trusted_base=CONTENT_TB,
+    assumptions=CONTENT_ASSUME,
+)
+
+prop(
+    "C02",
+    lean_modules=["BloomVerif.Lemmas.Content", "BloomVerif.Lemmas.Exact", "BloomVerif.Props.C02"],
+    technique="Lean 4 proof (query = filter of selected blocks' rows, as list equality; sublist for multiplicity) + differential correspondence per (query,row) and end to end with block-level layout read back",
+    design_ref="DESIGN.md section 4 C02",
+    text="Machine-checked theorems: every returned row is stored and satisfies the documented semantics whatever the filters answer (query_sound); the answer is a sublist of the stored rows (multiplicity); "
+         "without a prefilter it equals exactly the matching stored rows; with a prefilter it equals the matching rows of exactly the blocks whose metadata satisfies the tree under strict leaves "
+         "(a leaf on missing partition/minmax metadata is false). Tied to the code by comparing every query answer of random histories with the model's per-row and per-block verdicts over the layout read back through the public helpers.",
+    trusted_base=CONTENT_TB,
+    assumptions=CONTENT_ASSUME,
+)
+
 # Properties not claimed, with the reason (kept current; see DESIGN.md).
 NOT_CLAIMED = {}
